@@ -39,17 +39,17 @@ const (
 )
 
 type inliner struct {
-	p         *Program
-	vocab     map[string]bool
-	state     map[*ssa.Function]int // 1 in progress, 2 done
-	recursive map[*ssa.Function]bool
-	cloneOf   map[ssa.Instruction]*ssa.Function // cloned instruction -> function whose source it comes from
-	facts     map[*ssa.BasicBlock]map[ssa.Value]string
-	conts     map[*ssa.BasicBlock]bool // continuation blocks created by a splice (candidates for threading)
-	nSites    int
-	nThreaded int
-	into      map[*ssa.Function][]string
-	callers   map[*ssa.Function][]inlinedSite // helper -> call sites that were replaced by its body
+	p          *Program
+	vocab      map[string]bool
+	state      map[*ssa.Function]int // 1 in progress, 2 done
+	recursive  map[*ssa.Function]bool
+	cloneOf    map[ssa.Instruction]*ssa.Function // cloned instruction -> function whose source it comes from
+	facts      map[*ssa.BasicBlock]map[ssa.Value]string
+	conts      map[*ssa.BasicBlock]bool // continuation blocks created by a splice (candidates for threading)
+	nSites     int
+	nThreaded  int
+	into       map[*ssa.Function][]string
+	callers    map[*ssa.Function][]inlinedSite // helper -> call sites that were replaced by its body
 	referenced map[*ssa.Function]bool
 }
 
